@@ -170,7 +170,10 @@ impl AnalysisResult {
 impl WriteAheadLog {
     /// Maximum record size that can fit in a single block
     pub(crate) fn max_record_size(&self) -> usize {
-        WalBlock::usable_space(self.block_size as usize) as usize
+        // What an empty block really accepts: [AvailableSpace] for [WalBlock] takes the header off
+        // `capacity()`, which has already taken it off the block size. A record between the two values
+        // used to pass the check in [Self::push] and fail in the block, after the header had been updated.
+        WalBlock::usable_space(WalBlock::usable_space(self.block_size as usize)) as usize
     }
 
     pub(crate) fn last_lsn(&self) -> Option<Lsn> {
